@@ -24,11 +24,38 @@ def roperator(rng, zero_operands):
         return op
 
 
+def deep_operand(rng, k):
+    """k container levels around an integer (arrays, sometimes dictionaries)"""
+    t = '(i 1)'
+    for _ in range(k):
+        t = '(a %s)' % t if rng.random() < 0.8 else '(d (x4b %s))' % t
+    return t
+
+
+def gen_known(rng, reals):
+    """operations of the two open known classes (see classify)"""
+    g = ObjGen(rng, reals, allow_ref=False)
+    if rng.random() < 0.6:
+        n = rng.choice([0, 0, 1, 2])
+        op = rng.choice(['null', 'true', 'false']) + ''.join(rng.choice(ALPHA) for _ in range(rng.randint(0, 3)))
+        if n == 0 and rng.random() < 0.4:
+            op = 'BI' + ''.join(rng.choice(ALPHA) for _ in range(rng.randint(0, 2)))
+        ops = [L('op', xb(op), *[g.obj(rng.choice([0, 1, 2])) for _ in range(n)])]
+    else:
+        ops = [L('op', xb(roperator(rng, False)), deep_operand(rng, rng.choice([101, 102, 120])))]
+    if rng.random() < 0.5:
+        ops.insert(0, L('op', xb('q')))
+    return g.finish(L('enc', L('ops', *ops), 'wf'))
+
+
 def gen_enc(rng, reals, wf):
     g = ObjGen(rng, reals, allow_ref=not wf)
     ops = []
     for _ in range(rng.choice([0, 1, 1, 2, 3, 6])):
         n = rng.choice([0, 0, 1, 1, 2, 3, 6])
+        if wf and rng.random() < 0.03:
+            ops.append(L('op', xb(roperator(rng, False)), deep_operand(rng, rng.choice([98, 99, 100]))))
+            continue
         if wf:
             op = roperator(rng, n == 0)
         else:
@@ -103,7 +130,10 @@ def gen_cases(rng, tier):
     cases = []
     for k in range(n):
         r = rng.random()
-        if r < 0.5:
+        if r < 0.04:
+            c = gen_known(rng, reals)
+            cases.append((c, {'kind': 'enc-known-class', 'nontrivial': True}))
+        elif r < 0.5:
             c = gen_enc(rng, reals, True)
             cases.append((c, {'kind': 'enc-wf', 'nontrivial': '(op ' in c}))
         elif r < 0.6:
@@ -148,6 +178,73 @@ def compare(model, impl):
     return False
 
 
+def sx_nest(t):
+    """container nesting of an operand in the case language: (a ...) and (d (key value) ...) and (st (d ...) data)"""
+    best = 0
+    stack = []        # True for a container level
+    i = 0
+    while i < len(t):
+        ch = t[i]
+        if ch == '(':
+            j = i + 1
+            while j < len(t) and t[j] not in ' ()':
+                j += 1
+            tag = t[i + 1:j]
+            stack.append(tag in ('a', 'd'))
+            best = max(best, sum(stack))
+            i = j
+        elif ch == ')':
+            if stack:
+                stack.pop()
+            i += 1
+        else:
+            i += 1
+    return best
+
+
+def split_top(t):
+    """top-level items of the body of a list"""
+    out, depth, cur = [], 0, ''
+    for ch in t:
+        if ch == '(':
+            depth += 1
+        if ch == ')':
+            depth -= 1
+        if ch == ' ' and depth == 0:
+            if cur:
+                out.append(cur)
+            cur = ''
+        else:
+            cur += ch
+    if cur:
+        out.append(cur)
+    return out
+
+
+def known_class_of(line):
+    """mirror of known_class in coq/Proofs/ContentProofs.v, on the input: returns a finding id or None"""
+    if not line.startswith('(enc (ops'):
+        return None
+    body = line[len('(enc '):]
+    end = first_sx(body, 0)
+    ops = split_top(body[len('(ops'):end - 1].strip())
+    for o in ops:
+        items = split_top(o[1:-1])
+        if len(items) < 2 or items[0] != 'op':
+            continue
+        name = bytes.fromhex(items[1][1:])
+        operands = items[2:]
+        if name.startswith((b'null', b'true', b'false')) or (not operands and name.startswith(b'BI')):
+            return 'C14-keyword-operator'
+        if any(sx_nest(x) > 100 for x in operands):
+            return 'C14-deep-nesting'
+    return None
+
+
+def classify(line, tags, model_out, impl_out, verdict):
+    return known_class_of(line)
+
+
 SPEC = {
     'gen_parts': ['Lex'],
     'allowed_axioms': (),
@@ -155,6 +252,10 @@ SPEC = {
     'bin': 'c14',
     'gen_cases': gen_cases,
     'compare': compare,
+    'classify': classify,
+    'partial_note': 'second sentence of the property (decode, encode, decode again) is proved for the class of inline images '
+                    'that decode produces (C14_inline_image_rt_partial, image_dom) rather than for every content that decodes; '
+                    'the full clause is evaluated on the implementation for every dec case',
     'rule': 'random operation sequences (operators over the parser alphabet, 0-6 operands of every direct kind nested to depth 3, '
             'adversarial bytes in names/strings, f32 reals printed by Rust itself) encoded then decoded; raw content streams '
             '(token soup with comments, all EOL flavours, valid and invalid inline images, byte damage) decoded, re-encoded, '
@@ -166,3 +267,25 @@ SPEC = {
 
 def run(ctx):
     return propcheck.standard_check(ctx, SPEC)
+
+
+MANIFEST = {
+    'level_text': 'Machine-checked proof (Coq) that the model of Content::decode applied to the model of Content::encode returns '
+                  'the same operators with operands in normal form (integral real -> integer) for EVERY sequence of operations in '
+                  'the domain (operators over the parser alphabet; operands = direct objects of every kind nested up to MAX_BRACKET '
+                  'levels with arbitrary bytes in names, strings and keys; inline images in BI/ID/EI syntax) outside two open known '
+                  'classes (C14_rt); built on token round trips for every byte string (names, literal strings with any parenthesis '
+                  'nesting, hex strings, i64, f32 Display texts), the object round trip with the explicit follow-set / separator lemma '
+                  '(C14_object_rt, C14_separator_rule), witnesses for the known classes and for each domain restriction. Byte sets, '
+                  'escape letters, separator variants, alternative orders, depth limits and the encode shape are re-read from '
+                  'src/{writer,parser/mod,content,reader}.rs on every run; the model is tied to the crate by differential runs.',
+    'level_note': 'Open known findings: C14-keyword-operator (operator text beginning with null/true/false, or BI without operands) and '
+                  'C14-deep-nesting (operand containers nested deeper than MAX_BRACKET=100). Partial: the decode-encode-decode clause '
+                  'for inline images is proved for the class of images decode produces, not for arbitrary decodable content '
+                  '(C14_inline_image_rt_partial). Trusted: Coq kernel; translator part Lex; hand-written models Writer.v/Parser.v tied by '
+                  'correspondence (encoded bytes and decoded operations, valid and malformed streams); f32 Display/FromStr (Rust std: printed '
+                  'shape, from_str(to_string x) = x); extraction/OCaml driver; Rust harness. No axioms (Print Assumptions: closed).',
+    'technique': 'Coq proof: 256-case sweeps on regenerated byte sets + structural / nested induction with explicit continuations '
+                 '+ differential correspondence',
+    'design_ref': 'DESIGN.md 6 C14 (and C01 object_rt), notes/C14.md',
+}
